@@ -36,6 +36,10 @@ def runFw (cases : List CaseBlock) : IO Unit := do
       | some ("det" :: "ok" :: _) => pure ()
       | some w => IO.println s!"mon C05 FAIL {c.id} determinism: {String.intercalate " " w}"
       | none => pure ()
+      match c.trailer.find? (fun w => w.head? == some "ni") with
+      | some ("ni" :: "ok" :: _) => pure ()
+      | some w => IO.println s!"mon C10 FAIL {c.id} probe machine behaves differently next to its neighbours: {String.intercalate " " w}"
+      | none => pure ()
 
 def main (args : List String) : IO UInt32 := do
   let stdin ← IO.getStdin
